@@ -47,6 +47,10 @@ var c15Scope = []struct{ pkg, fn string }{
 	{"daemon", "ruleSync"},
 	{"daemon", "getPodResources"},
 	{"daemon", "filterENINotFound"},
+	{"pkg/vswitch", "SwitchPool.GetOne"},    // candidate ids come from the pod-networks annotation / eni_conf
+	{"plugin/datapath", "dstIPRule"},        // host_stack_cidrs of the CNI configuration
+	{"pkg/aliyun/client", "NewRateLimiter"}, // rate_limit of the configuration
+	{"pkg/aliyun/client", "RateLimiter.Wait"},
 }
 
 // c15Exceptions: obligation key prefix -> reason.
@@ -77,6 +81,7 @@ func c15(c *Ctx) {
 	c.Rule("C15.P4", "no panic(…) / Must*(non-constant) on the input path")
 	c.Rule("C15.P5", "contradiction: a pointer that is nil-checked somewhere in the function is not dereferenced unguarded elsewhere in it")
 	c.Rule("C15.P6", "a pointer field of a decoded object is dereferenced (*p) only under p != nil")
+	c.Rule("C15.P11", "a slice obtained from To4() / To16() is passed to binary.*.UintNN only where it is known to be non-nil (an address or mask of the other family yields nil)")
 	c.Rule("C15.P7", "decoder entry points never return (nil, nil): on a success return the decoded pointer is non-nil")
 	c.Rule("C15.U1", "bandwidth units: the case labels of parseBandwidth map to multipliers with K < M < G < T, the unit-less label is present, and the numeric part is cut at the first letter or at the end of the string")
 	// resolve scope
@@ -98,6 +103,10 @@ func c15(c *Ctx) {
 			if callee := p.FuncOf(cs.Callee); callee != nil && callee.Pkg == fn.Pkg && !seen[callee] && callee.Decl.Recv == nil {
 				seen[callee] = true
 				scope = append(scope, callee)
+			} else if callee != nil && callee.Pkg != fn.Pkg && !seen[callee] && callee.Decl.Recv == nil && passesParam(fn, cs.Call) {
+				// a helper of another package that is handed (part of) the input
+				seen[callee] = true
+				scope = append(scope, callee)
 			}
 		}
 	}
@@ -112,6 +121,7 @@ func c15(c *Ctx) {
 		counts["P5"] += contradictionRule(c, "C15.P5", fn)
 		c15P6(c, fn, counts)
 		c15P7(c, fn, counts)
+		c15P11(c, fn, counts)
 	}
 	for _, r := range []struct {
 		rule string
@@ -125,6 +135,7 @@ func c15(c *Ctx) {
 	c15U1(c)
 	ruleNilMapField(c, "C15.P8", p.live())
 	ruleTypedNil(c, "C15.P9", p.live())
+	ruleNoDeleteFromTotalMap(c, "C15.P10")
 }
 
 func c15Excepted(c *Ctx, rule, key string, pos string, fn *FuncInfo) bool {
@@ -598,4 +609,63 @@ func c15U1(c *Ctx) {
 		w := q.Escapes(nil, func(nd ast.Node) bool { return nd == ast.Node(sw.Tag) }, nil, nil)
 		c.Check(w != nil, "C15.U1", "the unit-less case is reachable when the value has no letter", p.Pos(sw), fn.Key(), "a path with IndexFunc = −1 reaches the unit switch", "unit-less values are rejected before the switch")
 	}
+}
+
+// passesParam: some argument of the call mentions a parameter of fn.
+func passesParam(fn *FuncInfo, call *ast.CallExpr) bool {
+	info := fn.Info()
+	params := map[types.Object]bool{}
+	for _, f := range fn.Decl.Type.Params.List {
+		for _, nm := range f.Names {
+			params[info.Defs[nm]] = true
+		}
+	}
+	found := false
+	for _, a := range call.Args {
+		ast.Inspect(a, func(k ast.Node) bool {
+			if id, ok := k.(*ast.Ident); ok && params[info.ObjectOf(id)] {
+				found = true
+			}
+			return !found
+		})
+	}
+	return found
+}
+
+// P11: a byte slice produced by To4() / To16() and handed to binary.*.UintNN is
+// known not to be nil there (To4 of a 16-byte mask, or of an address that is not
+// IPv4, is nil; UintNN of nil panics).
+func c15P11(c *Ctx, fn *FuncInfo, counts map[string]int) {
+	info := fn.Info()
+	ast.Inspect(fn.Decl.Body, func(nd ast.Node) bool {
+		call, ok := nd.(*ast.CallExpr)
+		if !ok || len(call.Args) != 1 {
+			return true
+		}
+		f := Callee(info, call)
+		if f == nil || f.Pkg() == nil || f.Pkg().Path() != "encoding/binary" || !strings.HasPrefix(f.Name(), "Uint") {
+			return true
+		}
+		v := identObj(info, call.Args[0])
+		if v == nil {
+			return true
+		}
+		fromTo4 := false
+		for _, d := range varDefs(fn, v) {
+			if d.rhs == nil {
+				continue
+			}
+			if dc, ok := ast.Unparen(d.rhs).(*ast.CallExpr); ok {
+				if sel, ok := ast.Unparen(dc.Fun).(*ast.SelectorExpr); ok && (sel.Sel.Name == "To4" || sel.Sel.Name == "To16") {
+					fromTo4 = true
+				}
+			}
+		}
+		if !fromTo4 {
+			return true
+		}
+		counts["P11"]++
+		c.Require("C15.P11", fn.Key()+": "+f.Name()+"("+v.Name()+") with "+v.Name()+" from To4()/To16()", fn, call, v.Name()+" != nil", nil)
+		return true
+	})
 }
